@@ -237,6 +237,15 @@ impl<S: Storage> Builder<S> {
         )
     }
 
+    /// Returns the value of a LIMIT / OFFSET expression, which must be a non-negative integer
+    /// constant (or NULL: `default`).
+    fn limit_value(&self, id: Id, default: usize) -> Result<usize> {
+        match self.node(id) {
+            Expr::Constant(v) => Ok(v.as_usize()?.unwrap_or(default)),
+            e => Err(crate::types::ConvertError::Cast(e.to_string(), "usize").into()),
+        }
+    }
+
     /// Returns the catalog.
     fn catalog(&self) -> &RootCatalogRef {
         self.optimizer.catalog()
@@ -367,19 +376,27 @@ impl<S: Storage> Builder<S> {
             }
             .execute(self.build_id(child)),
 
-            Limit([limit, offset, child]) => LimitExecutor {
-                limit: (self.node(limit).as_const().as_usize().unwrap()).unwrap_or(usize::MAX / 2),
-                offset: self.node(offset).as_const().as_usize().unwrap().unwrap(),
+            Limit([limit, offset, child]) => {
+                match (self.limit_value(limit, usize::MAX / 2), self.limit_value(offset, 0)) {
+                    (Ok(limit), Ok(offset)) => {
+                        LimitExecutor { limit, offset }.execute(self.build_id(child))
+                    }
+                    (Err(e), _) | (_, Err(e)) => futures::stream::once(async { Err(e) }).boxed(),
+                }
             }
-            .execute(self.build_id(child)),
 
-            TopN([limit, offset, order_keys, child]) => TopNExecutor {
-                limit: (self.node(limit).as_const().as_usize().unwrap()).unwrap_or(usize::MAX / 2),
-                offset: self.node(offset).as_const().as_usize().unwrap().unwrap(),
-                order_keys: self.resolve_column_index(order_keys, child),
-                types: self.plan_types(id).to_vec(),
+            TopN([limit, offset, order_keys, child]) => {
+                match (self.limit_value(limit, usize::MAX / 2), self.limit_value(offset, 0)) {
+                    (Ok(limit), Ok(offset)) => TopNExecutor {
+                        limit,
+                        offset,
+                        order_keys: self.resolve_column_index(order_keys, child),
+                        types: self.plan_types(id).to_vec(),
+                    }
+                    .execute(self.build_id(child)),
+                    (Err(e), _) | (_, Err(e)) => futures::stream::once(async { Err(e) }).boxed(),
+                }
             }
-            .execute(self.build_id(child)),
 
             Join([op, on, left, right]) => match self.node(op) {
                 Inner | LeftOuter | RightOuter | FullOuter => NestedLoopJoinExecutor {
